@@ -42,6 +42,12 @@ Proof.
   - rewrite (tier_verdict_unmark s t p p' H), IH. reflexivity.
 Qed.
 
+Lemma tiers_verdict_unmark : forall s ts p p', unmark p' = unmark p -> tiers_verdict s ts p' = tiers_verdict s ts p.
+Proof.
+  intros s ts p p' H. induction ts as [|t ts IH]; [reflexivity|]. cbn [tiers_verdict].
+  rewrite (tier_verdict_unmark s (to_tier t) p p' H), IH. reflexivity.
+Qed.
+
 Lemma bytes_eqb_refl : forall l, bytes_eqb l l = true.
 Proof. induction l as [|x l IH]; [reflexivity|]. cbn. rewrite N.eqb_refl. exact IH. Qed.
 Lemma packet_eqb_unmarked_of_unmark : forall p p', unmark p' = unmark p -> packet_eqb_unmarked p p' = true.
@@ -174,6 +180,38 @@ Section Endpoint.
         - destruct Y as (r & Y1 & Y2). exists r. split; [assumption|congruence]. }
       destruct (tier_verdict (e_sets e) (to_tier t) p); cbn [cont_result final_result] in *.
       + destruct X as (q & X1 & X2 & X3). exists q. split; [assumption|split; [assumption|]]. eapply st_mark_has; eassumption.
+      + exact X.
+      + destruct X as (q & ps' & X1 & X2 & X3). eapply C; eassumption.
+      + destruct X as (q & ps' & X1 & X2 & X3). eapply C; eassumption.
+  Qed.
+
+  (* the tiers alone, with any continuation (forward chains) *)
+  Lemma tiers_run_gen : forall f tiers rs p ps,
+    tiers_in_cs tiers -> wfp p -> st c false ps (pk_mark p) ->
+    cont_result (tiers_verdict (e_sets e) tiers p) p
+      (go cs e (run (S (S f)) cs e) (flat_map (tier_rules ec c) tiers ++ rs) p) (go cs e (run (S (S f)) cs e) rs).
+  Proof.
+    intros f tiers rs. induction tiers as [|t ts IH]; intros p ps Hin Hw Hst.
+    - cbn. exists p, ps. auto.
+    - cbn [flat_map tiers_verdict]. rewrite <- app_assoc.
+      pose proof (tier_run f t (flat_map (tier_rules ec c) ts ++ rs) p ps (Hin t (or_introl eq_refl)) Hw Hst) as X.
+      assert (Hin' : tiers_in_cs ts) by (intros t' Ht'; apply Hin; right; exact Ht').
+      assert (C : forall q ps', go cs e (run (S (S f)) cs e) (tier_rules ec c t ++ flat_map (tier_rules ec c) ts ++ rs) p
+                                = go cs e (run (S (S f)) cs e) (flat_map (tier_rules ec c) ts ++ rs) q ->
+                      unmark q = unmark p -> st c false ps' (pk_mark q) ->
+                      cont_result (tiers_verdict (e_sets e) ts p) p
+                        (go cs e (run (S (S f)) cs e) (tier_rules ec c t ++ flat_map (tier_rules ec c) ts ++ rs) p)
+                        (go cs e (run (S (S f)) cs e) rs)).
+      { intros q ps' E U S'. rewrite E.
+        pose proof (IH q ps' Hin' (wfp_unmark v _ _ U Hw) S') as Y.
+        rewrite (tiers_verdict_unmark _ _ _ _ U) in Y.
+        destruct (tiers_verdict (e_sets e) ts p); cbn [cont_result] in *.
+        - destruct Y as (r & Y1 & Y2 & Y3). exists r. split; [assumption|split; [congruence|assumption]].
+        - destruct Y as (r & Y1 & Y2). exists r. split; [assumption|congruence].
+        - destruct Y as (r & ps2 & Y1 & Y2 & Y3). exists r, ps2. split; [assumption|split; [congruence|assumption]].
+        - destruct Y as (r & ps2 & Y1 & Y2 & Y3). exists r, ps2. split; [assumption|split; [congruence|assumption]]. }
+      destruct (tier_verdict (e_sets e) (to_tier t) p); cbn [cont_result] in X.
+      + exact X.
       + exact X.
       + destruct X as (q & ps' & X1 & X2 & X3). eapply C; eassumption.
       + destruct X as (q & ps' & X1 & X2 & X3). eapply C; eassumption.
@@ -342,7 +380,7 @@ Section Endpoint.
     assert (Hu : is_untracked ec = false) by (unfold is_untracked; rewrite Ht; reflexivity).
     assert (Hn : is_normal ec = true) by (unfold is_normal; rewrite Ht; reflexivity).
     assert (Hfw : is_forward ec = false) by (unfold is_forward; rewrite Ht; reflexivity).
-    unfold endpoint_rules, expected. cbn [run].
+    unfold endpoint_rules, expected. rewrite Ht. cbn [run].
     destruct (ec_admin_up ec); cbn [negb].
     2:{ rewrite go_deny by reflexivity. cbn [ok_result]. rewrite deny_final_fin, packet_eqb_unmarked_of_unmark; reflexivity. }
     rewrite conntrack_run by exact Hu.
@@ -371,5 +409,55 @@ Section Endpoint.
       apply packet_eqb_unmarked_of_unmark. congruence.
     - destruct X as (q & X1 & X2). rewrite X1. cbn [ok_result]. rewrite deny_final_fin. cbn [andb].
       apply packet_eqb_unmarked_of_unmark. congruence.
+  Qed.
+  (* the forward chain of a host endpoint: no profiles; allowed outright when no tier applies *)
+  Theorem forward_exact : forall f tiers profiles p,
+    ec_type ec = TForward ->
+    tiers_in_cs tiers -> failsafe_ok (S (S f)) ->
+    wfp p -> entry_mark_ok c p = true ->
+    ok_result ec c (expected ec (e_sets e) tiers profiles p) p
+      (run (S (S (S f))) cs e (endpoint_rules ec c tiers profiles) p) = true.
+  Proof.
+    intros f tiers profiles p Ht Hti Hfs Hw Hd.
+    assert (Hu : is_untracked ec = false) by (unfold is_untracked; rewrite Ht; reflexivity).
+    assert (Hn : is_normal ec = false) by (unfold is_normal; rewrite Ht; reflexivity).
+    assert (Hfw : is_forward ec = true) by (unfold is_forward; rewrite Ht; reflexivity).
+    unfold endpoint_rules, expected. rewrite Ht. cbn [run].
+    destruct (ec_admin_up ec); cbn [negb].
+    2:{ rewrite go_deny by reflexivity. cbn [ok_result]. rewrite deny_final_fin, packet_eqb_unmarked_of_unmark; reflexivity. }
+    rewrite conntrack_run by exact Hu.
+    destruct (ct_in p [CtRelated; CtEstablished]).
+    { destruct (ec_allow ec) eqn:Ea; cbn [ok_result]; rewrite Ea.
+      - apply packet_eqb_unmarked_of_unmark. reflexivity.
+      - cbn [pk_mark set_mark]. rewrite (set_accept_has c F). cbn [andb]. apply packet_eqb_unmarked_of_unmark. reflexivity. }
+    destruct (ec_ct_invalid ec && ct_in p [CtInvalid]).
+    { cbn [ok_result]. rewrite deny_final_fin, packet_eqb_unmarked_of_unmark; reflexivity. }
+    rewrite (failsafe_run f _ p Hfs).
+    rewrite Hn, Hfw, andb_true_r. cbn [app].
+    unfold AClearMark, ASetMaskedMark. rewrite go_mark by reflexivity.
+    set (p1 := set_mark p (apply_mark (lnot32 (N.lor (c_accept c) (c_pass c))) 0 (pk_mark p))).
+    assert (U1 : unmark p1 = unmark p) by reflexivity.
+    assert (S1 : st c false false (pk_mark p1)).
+    { apply (st_clear_both c F). unfold entry_mark_ok, mark_clear in Hd. apply N.eqb_eq in Hd. exact Hd. }
+    assert (W1 : wfp p1) by (eapply wfp_unmark; eassumption).
+    rewrite encap_run. change (encap_blocked ec p1) with (encap_blocked ec p).
+    destruct (encap_blocked ec p).
+    { cbn [ok_result]. rewrite deny_final_fin, packet_eqb_unmarked_of_unmark; reflexivity. }
+    destruct tiers as [|t ts].
+    - cbn [flat_map is_nil app]. unfold ASetMark, ASetMaskedMark. rewrite go_mark by reflexivity.
+      rewrite go_return by reflexivity. cbn [ok_result pk_mark set_mark]. rewrite (set_accept_has c F). cbn [andb].
+      apply packet_eqb_unmarked_of_unmark. reflexivity.
+    - cbn [is_nil]. rewrite app_nil_r.
+      pose proof (tiers_run_gen f (t :: ts) [] p1 false Hti W1 S1) as X. rewrite app_nil_r in X.
+      rewrite (tiers_verdict_unmark _ _ _ _ U1) in X.
+      destruct (tiers_verdict (e_sets e) (t :: ts) p); cbn [cont_result] in X.
+      + destruct X as (q & X1 & X2 & X3). rewrite X1. cbn [ok_result]. rewrite (st_mark_has c _ _ X3). cbn [andb].
+        apply packet_eqb_unmarked_of_unmark. congruence.
+      + destruct X as (q & X1 & X2). rewrite X1. cbn [ok_result]. rewrite deny_final_fin. cbn [andb].
+        apply packet_eqb_unmarked_of_unmark. congruence.
+      + destruct X as (q & ps' & X1 & X2 & (X3 & _)). rewrite X1. cbn [go ok_result]. unfold mark_clear. rewrite X3. cbn [N.eqb andb].
+        apply packet_eqb_unmarked_of_unmark. congruence.
+      + destruct X as (q & ps' & X1 & X2 & (X3 & _)). rewrite X1. cbn [go ok_result]. unfold mark_clear. rewrite X3. cbn [N.eqb andb].
+        apply packet_eqb_unmarked_of_unmark. congruence.
   Qed.
 End Endpoint.
